@@ -13,7 +13,7 @@ except Exception:   # pragma: no cover
 
 BASIC, COMPOUND, ORTH, FINAL, SH, DH = range(6)
 KIND_NAMES = ['basic', 'compound', 'orthogonal', 'final', 'shallow', 'deep']
-EVENTS = [None, 'a', 'b', 'c']
+EVENTS = [None, 'a', 'b', 'c', 'd', 'e', 'f', 'g']
 
 
 # ------------------------------------------------------------------------------- AllSAT
@@ -179,6 +179,21 @@ def charts(skel, m, nevents=2, targets='free', internal=True, sym_order=True, hi
     for vals in all_smt(s, terms):
         yield {'N': n, 'par': par, 'kind': kind, 'init': vals[:n],
                'tr': [[vals[n + t], vals[n + m + t], vals[n + 2 * m + t]] for t in range(m)]}
+
+
+# ------------------------------------------------------------------------------- larger hand-written charts
+# a plant with two regions: a production line whose job has a deep history state, and an oven with nested states;
+# the whole plant can be left for maintenance and resumed through the history state
+PLANT = {'N': 14, 'names': ['root', 'plant', 'maint', 'line', 'idle', 'job', 'jobH', 'cut', 'weld', 'oven', 'warm', 'ramp',
+                            'hold', 'off'],
+         'par': [-1, 0, 0, 1, 3, 3, 5, 5, 5, 1, 9, 10, 10, 9],
+         'kind': [COMPOUND, ORTH, BASIC, COMPOUND, BASIC, COMPOUND, DH, BASIC, BASIC, COMPOUND, COMPOUND, BASIC, BASIC, BASIC],
+         'init': [1, -1, -1, 4, -1, 7, 7, -1, -1, 10, 11, -1, -1, -1],
+         'tr': [[4, 5, 1], [7, 8, 2], [5, 4, 3], [4, 6, 4], [11, 12, 5], [10, 13, 6], [1, 2, 7], [2, 6, 4], [2, 1, 1]]}
+# the same with a shallow history state
+PLANT_S = dict(PLANT, kind=[COMPOUND, ORTH, BASIC, COMPOUND, BASIC, COMPOUND, SH, BASIC, BASIC, COMPOUND, COMPOUND, BASIC,
+                            BASIC, BASIC])
+FIXED = {'plant': PLANT, 'plant_s': PLANT_S}
 
 
 # ------------------------------------------------------------------------------- naming
